@@ -340,7 +340,9 @@ def gen_dot(rng: random.Random, tier: str) -> dict:
             # the response may be used inside a Python call or expression (where its name has to be quoted)
             "lhs_wrap": rng.choice([None, None, "I(`{n}`)", "{{`{n}` * 2}}", "abs(`{n}`)"]),
             # the caller's context may itself be a layered mapping that carries a layer called "data" (another materializer's context)
-            "ctx_kind": rng.choice([None, None, None, "named_data_layer", "other_materializer"])}
+            "ctx_kind": rng.choice([None, None, None, "named_data_layer", "other_materializer"]),
+            # a formula without '~' in which '.' is not written first: nothing is on a left-hand side, so '.' is every column
+            "one_sided": rng.choice([None, None, None, "call_first", "interaction_first"])}
 
 
 def judge_dot(case) -> Outcome:
@@ -350,7 +352,7 @@ def judge_dot(case) -> Outcome:
     out = Outcome()
     names, lhs = case["names"], case["lhs"]
     nointercept = case.get("parser") == "no_intercept"
-    out.sig = (len(names), len(lhs), case["extra"].split("`")[0], names.index(lhs[0]), case["icpt"], "." in lhs[0], nointercept, case.get("lhs_wrap"), case.get("ctx_kind"))
+    out.sig = (len(names), len(lhs), case["extra"].split("`")[0], names.index(lhs[0]), case["icpt"], "." in lhs[0], nointercept, case.get("lhs_wrap"), case.get("ctx_kind"), case.get("one_sided"))
     rng = np.random.default_rng(len(names))
     df = pd.DataFrame({n: rng.normal(size=5) for n in names})
     head = ("" if case["icpt"] else "0 + ") if not nointercept else ("1 + " if case["icpt"] else "")
@@ -359,6 +361,12 @@ def judge_dot(case) -> Outcome:
     expected = [n for n in names if n not in lhs]
     if case["extra"].startswith(" - "):
         expected = [n for n in expected if n != case["v"]]
+    if case.get("one_sided"):
+        u = lhs[0]
+        f = head + (f"I(`{u}` * 2) + ." if case["one_sided"] == "call_first" else f"`{u}`:`{case['v']}` + .") + case["extra"]
+        expected = list(names)
+        if case["extra"].startswith(" - "):
+            expected = [n for n in expected if n != case["v"]]
     try:
         with quiet():
             if nointercept:
@@ -381,16 +389,17 @@ def judge_dot(case) -> Outcome:
     except Exception as e:  # noqa: BLE001
         out.fail("c17.dot_raised", f"{f!r} on columns {names} (parser={case.get('parser')}): {type(e).__name__}: {str(e)[:150]}")
         return out
-    got = [c for c in colnames(mm.rhs) if c != "Intercept"]
+    rhs_ = mm.rhs if case.get("one_sided") is None else mm  # (a formula without '~' gives a single matrix)
+    got = [c for c in colnames(rhs_) if c != "Intercept"]
     first_order = [c for c in got if ":" not in c and not c.startswith("I(")]
     if first_order != expected:
         out.fail("c17.dot_expansion", f"{f!r} on columns {names}: '.' expanded to {first_order}, expected {expected} (data order, minus lhs)")
-    if ("Intercept" in colnames(mm.rhs)) != case["icpt"]:
+    if ("Intercept" in colnames(rhs_)) != case["icpt"]:
         out.fail("c17.dot_intercept", f"{f!r}: intercept presence wrong")
     for n in first_order:
         if n not in df.columns:  # (already reported as a wrong expansion)
             continue
-        if not np.allclose(dense(mm.rhs)[:, colnames(mm.rhs).index(n)], df[n].to_numpy()):
+        if not np.allclose(dense(rhs_)[:, colnames(rhs_).index(n)], df[n].to_numpy()):
             out.fail("c17.dot_values", f"{f!r}: column {n!r} is not the data column")
     return out
 
